@@ -154,8 +154,15 @@ func runC17(r *Run) {
 	if fn := r.Fn("submission.groupRace"); fn != nil {
 		wc := CallsTo(fn, "context.WithCancel")
 		r.Check("groupRace:per-log-context", len(wc) >= 1, r.FnPos(fn), fmt.Sprintf("%d cancellable contexts created", len(wc)))
+		// the caller's context: the parameter of type context.Context, wherever it stands
+		ci := paramOfType(fn, func(t types.Type) bool { return types.TypeString(t, nil) == "context.Context" })
+		if ci < 0 {
+			r.Fail("groupRace:per-log-context.parent", r.FnPos(fn), "undecided: groupRace has no single context.Context parameter")
+		}
 		for _, c := range wc {
-			r.ExpectArg(c, "groupRace:per-log-context.parent", 0, "p0")
+			if ci >= 0 {
+				r.ExpectArg(c, "groupRace:per-log-context.parent", 0, fmt.Sprintf("p%d", ci))
+			}
 		}
 		nDefer := 0
 		eachInstr(fn, func(in ssa.Instruction) {
@@ -173,6 +180,41 @@ func runC17(r *Run) {
 			}
 		}
 	}
+}
+
+// paramOfType: the index (receiver = 0, as in origin terms) of the only parameter of fn whose
+// type satisfies pred; -1 when there is none or more than one.
+func paramOfType(fn *ssa.Function, pred func(types.Type) bool) int {
+	idx := -1
+	for i, p := range fn.Params {
+		if pred(p.Type()) {
+			if idx >= 0 {
+				return -1
+			}
+			idx = i
+		}
+	}
+	return idx
+}
+
+// c17RaceParams: positions of groupRace's shared-state and group parameters, found by type.
+func c17RaceParams(r *Run) (state, group int) {
+	fn := r.P.Func("submission.groupRace")
+	if fn == nil {
+		return -1, -1
+	}
+	ptrTo := func(q string) func(types.Type) bool {
+		named := r.P.LookupType(q)
+		return func(t types.Type) bool {
+			pt, ok := t.(*types.Pointer)
+			if !ok || named == nil {
+				return false
+			}
+			nt, ok := pt.Elem().(*types.Named)
+			return ok && nt.Obj() == named.Obj()
+		}
+	}
+	return paramOfType(fn, ptrTo("submission.safeSubmissionState")), paramOfType(fn, ptrTo("ctpolicy.LogGroupInfo"))
 }
 
 func c17IsField(v ssa.Value, named *types.Named, field string) bool {
@@ -252,8 +294,18 @@ func c17Completeness(r *Run) {
 		// one race per group, each reporting its own result
 		if clo := r.Fn("submission.GetSCTs$1"); clo != nil {
 			if c := r.OneCall(clo, "GetSCTs:race", "submission.groupRace"); c != nil {
-				r.ExpectArg(c, "GetSCTs:race.group", 3, "p0")
-				r.ExpectArg(c, "GetSCTs:race.state", 5, "*^new:*submission.safeSubmissionState#0")
+				// the race's group and shared state are the parameters of these types, wherever they stand
+				si, gi := c17RaceParams(r)
+				if gi >= 0 {
+					r.ExpectArg(c, "GetSCTs:race.group", gi, "p0")
+				} else {
+					r.Fail("GetSCTs:race.group", r.Where(c), "undecided: groupRace has no single *ctpolicy.LogGroupInfo parameter")
+				}
+				if si >= 0 {
+					r.ExpectArg(c, "GetSCTs:race.state", si, "*^new:*submission.safeSubmissionState#0")
+				} else {
+					r.Fail("GetSCTs:race.state", r.Where(c), "undecided: groupRace has no single *safeSubmissionState parameter")
+				}
 				snd := false
 				eachInstr(clo, func(in ssa.Instruction) {
 					if s, ok := in.(*ssa.Send); ok && glob("submission.groupRace(*)", r.D.D(s.X)) {
@@ -284,6 +336,16 @@ func c17Completeness(r *Run) {
 	}
 	if fn := r.Fn("submission.groupRace"); fn != nil {
 		n := 0
+		si, gi := c17RaceParams(r)
+		pState, pGroup := fmt.Sprintf("p%d", si), fmt.Sprintf("p%d", gi)
+		if si < 0 {
+			r.Fail("groupRace:parameters.state", r.FnPos(fn), "undecided: groupRace must take exactly one *safeSubmissionState")
+			pState = "<state parameter>"
+		}
+		if gi < 0 {
+			r.Fail("groupRace:parameters.group", r.FnPos(fn), "undecided: groupRace must take exactly one *ctpolicy.LogGroupInfo")
+			pGroup = "<group parameter>"
+		}
 		eachInstr(fn, func(in ssa.Instruction) {
 			st, ok := in.(*ssa.Store)
 			if !ok || !glob("&(new:submission.groupState#*.Success)", r.D.D(st.Addr)) {
@@ -306,11 +368,11 @@ func c17Completeness(r *Run) {
 				}
 				r.Check("groupRace:success-true-only-when-complete", ok, r.Where(st), "Success: true is reported only after groupComplete() returned true")
 			} else {
-				r.Check("groupRace:success-from-state", glob("(*submission.safeSubmissionState).groupComplete(p5, p3.Name)", d), r.Where(st), "Success ← "+d)
+				r.Check("groupRace:success-from-state", d == "(*submission.safeSubmissionState).groupComplete("+pState+", "+pGroup+".Name)", r.Where(st), "Success ← "+d)
 			}
 		})
 		r.Check("groupRace:outcomes", n == 3, r.FnPos(fn), fmt.Sprintf("%d outcome constructions", n))
-		r.ExpectStores(fn, "groupRace:outcome.Name", "&(new:submission.groupState#*.Name)", "p3.Name", 3)
+		r.ExpectStores(fn, "groupRace:outcome.Name", "&(new:submission.groupState#*.Name)", pGroup+".Name", 3)
 	}
 	if fn := r.Fn("(*submission.safeSubmissionState).groupComplete"); fn != nil {
 		reach := r.D.Walk(fn, Sigma{"p0.groupNeeds[p1]#1": "T"}, nil, nil)
